@@ -1,0 +1,14 @@
+//go:build verif
+
+package dcmi
+
+import "time"
+
+// This file is only compiled with -tags verif. It exposes unexported
+// functions to the verification harness in /verif.
+
+// VerifRollingAvgPeriodDuration exposes rollingAvgPeriodDuration.
+func VerifRollingAvgPeriodDuration(b byte) time.Duration { return rollingAvgPeriodDuration(b) }
+
+// VerifRollingAvgPeriodByte exposes rollingAvgPeriodByte.
+func VerifRollingAvgPeriodByte(d time.Duration) byte { return rollingAvgPeriodByte(d) }
